@@ -392,8 +392,62 @@ def r8_3(F, R):
                 R.violation("R8.3", "%s/%s" % (fname, name), "%s does not read field `%s`" % (f.name, name), "%s:%d" % (f.file, f.line))
 
 
+LOSSY_ADAPTORS = {"filter", "filter_map", "skip", "skip_while", "take", "take_while", "step_by", "rev", "chain", "flat_map", "flatten", "zip",
+                  "dedup", "dedup_by", "dedup_by_key", "scan", "map_while", "peekable", "fuse", "last", "nth", "find", "find_map", "position"}
+LOSSY_VEC_OPS = {"resize", "resize_with", "truncate", "retain", "retain_mut", "remove", "swap_remove", "pop", "drain", "sort", "sort_by", "sort_by_key",
+                 "sort_unstable", "reverse", "dedup", "clear", "split_off", "insert", "push", "extend", "append", "rotate_left", "rotate_right", "swap"}
+
+
+def r8_4(F, R):
+    from ..dataflow import Flow
+    from ..cfg import Defs
+    from .common import recv_fields
+    R.rule("R8.4", "positional containers survive a checkpoint element for element: the conversion of the group save stack in SerializableVM::new and "
+                   "finish_deserialization is an order- and length-preserving iterator chain (iter/into_iter/map/collect only — no filter, skip, rev, ...) "
+                   "and the restored stack is not resized, truncated or reordered afterwards")
+    insts = [("texlang::vm::serde::SerializableVM::new", "save_stack"), ("texlang::vm::serde::finish_deserialization", "save_stack")]
+    for fname, field in insts:
+        fns = [f for f in F.fns.values() if strip_generics(f.name) == fname]
+        if len(fns) != 1:
+            raise AnchorError("R8.4: %s: %d matches" % (fname, len(fns)))
+        fn = fns[0]
+        flow = Flow(fn)
+        defs = Defs(fn)
+        chain = []
+        bad = []
+        for bi, t in fn.calls():
+            n = strip_generics(callee_name(t) or "")
+            short = n.split("::")[-1]
+            if not t["args"]:
+                continue
+            og = flow.operand_origins(t["args"][0])
+            on_stack = ("field", field) in og
+            if not on_stack:
+                continue
+            is_iter = "iter::" in n or n.endswith("::iter") or n.endswith("::into_iter") or n.endswith("::collect") or "Iterator" in n
+            if is_iter:
+                chain.append(short)
+                if short in LOSSY_ADAPTORS:
+                    bad.append((short, fn.loc(t)))
+            elif "vec::Vec" in n and short in LOSSY_VEC_OPS:
+                base, fp = recv_fields(fn, defs, t)
+                if fp and fp[-1] == field:
+                    bad.append((short, fn.loc(t)))
+        inst = "%s/%s" % (fname, field)
+        loc = "%s:%d" % (fn.file, fn.line)
+        if not chain:
+            raise AnchorError("R8.4: no iterator chain over %s in %s" % (field, fname))
+        if bad:
+            for short, l in bad:
+                R.violation("R8.4", inst + "/" + short, "%s applies `%s` to the %s: elements are dropped, reordered or padded, so a value saved by an open group "
+                            "is restored at a different `}` after a checkpoint" % (fn.name, short, field), l)
+        else:
+            R.ok("R8.4", inst, "chain: %s" % " -> ".join(chain), loc, how="iterator-shape")
+
+
 def run(F, R, tier):
     r8_1(F, R, tier)
+    r8_4(F, R)
     r8_2(F, R)
     r8_3(F, R)
     return ("Static analysis over MIR facts (including derive(Serialize/Deserialize) output, analysed as ordinary MIR). Decides that every field "
